@@ -160,6 +160,9 @@ func workerC11(cfg WorkerCfg) int {
 }
 
 func replayC11(cfg WorkerCfg) int {
+	if handled, code := replayVolume(cfg); handled {
+		return code
+	}
 	b, err := os.ReadFile(cfg.File)
 	if err != nil {
 		fmt.Fprintln(os.Stderr, err)
